@@ -614,3 +614,36 @@ Qed.
 Lemma loop_never_out_of_fuel aok sm cms :
   snd (auth_loop (S (length cms)) aok sm cms (mask cms)) <> LFuel.
 Proof. apply loop_total. pose proof (cnt_mask cms). lia. Qed.
+
+(* ---- REQUIRED protection (Encryption or Integrity) in the composed run ---------- *)
+
+Lemma flow_protection cA sA cE sE c_prot s_prot hm hk hm' hk' cn lo ca sa ce se :
+  flow cA sA cE sE c_prot s_prot hm hk hm' hk' cn lo = AOk ca sa ce se ->
+  (c_prot = true -> ce = true) /\ (s_prot = true -> se = true) /\ ce = se.
+Proof.
+  unfold flow.
+  destruct (decide sA cA sE cE hm hk) as [[e|] [[a b] c]]; [discriminate|].
+  destruct (decide Ot cA Ot cE hm' hk') as [[e|] x]; [discriminate|].
+  assert (F : forall ran,
+    (if negb hk && s_prot then AFail true true
+     else if negb hk' && c_prot then AFail true false
+     else if negb (Bool.eqb hk hk') then AFail true false else AOk ran a hk' hk) = AOk ca sa ce se ->
+    (c_prot = true -> ce = true) /\ (s_prot = true -> se = true) /\ ce = se).
+  { intros ran H. destruct hk, hk', s_prot, c_prot; simpl in H; try discriminate; inversion H; subst; auto. }
+  destruct a.
+  - destruct cn; [discriminate|]. destruct lo; [|discriminate]. apply F.
+  - destruct (is_rq cA); [discriminate|]. apply F.
+Qed.
+
+Lemma honest_protection aok Cl Sv sid r :
+  honest aok Cl Sv sid = HOk r ->
+  (requires_protection Cl = true -> k_creal r = true) /\
+  (requires_protection Sv = true -> k_sreal r = true) /\
+  k_creal r = k_sreal r /\ k_cenc r = k_creal r /\ k_senc r = k_sreal r.
+Proof.
+  unfold honest. cbv zeta.
+  match goal with |- match ?F with _ => _ end = _ -> _ => destruct F as [|ce se|ca sa ce se] eqn:E end;
+    try discriminate.
+  intro H. inversion H; subst; simpl.
+  apply flow_protection in E. destruct E as (A & B & C). auto.
+Qed.
